@@ -183,8 +183,15 @@ pub trait CharacterDataMut: CharacterData + NodeMut {
     fn delete_data(&self, offset: usize, count: usize) -> error::Result<()>;
 
     fn replace_data(&self, offset: usize, count: usize, arg: &str) -> error::Result<()> {
+        let data = self.data()?;
         self.delete_data(offset, count)?;
-        self.insert_data(offset, arg)
+        if let Err(e) = self.insert_data(offset, arg) {
+            // `arg` was refused: put back what was deleted.
+            self.delete_data(0, self.length())?;
+            self.insert_data(0, data.as_str())?;
+            return Err(e);
+        }
+        Ok(())
     }
 }
 
